@@ -5,10 +5,11 @@ CONSTANTS
   ObfsMin = 3
   ObfsMax = 4
   MaxRead = 3
+  DeadlineSource = "private"
   MarkMode = "release"
   MaxW = 2
   Cases <- MCCases
 VIEW view
-INVARIANTS NoBytes NoEarlyClose KeepsReading MatchSound ConsumeExact FoundWhenComplete NeverDropsMatching MarkedUsed RegistryFree
+INVARIANTS NoBytes NoEarlyClose KeepsReading MatchSound ConsumeExact FoundWhenComplete NeverDropsMatching MarkedUsed RegistryFree DeadlineUnpredictable
 PROPERTIES Recognised Terminates
 CHECK_DEADLOCK FALSE
